@@ -234,6 +234,9 @@ func splitQuery(q string) [][2]string {
 		return out
 	}
 	for _, kv := range strings.Split(q, "&") {
+		if kv == "" {
+			continue // "a=b&&c=d" and a trailing "&" carry no parameter
+		}
 		k, v, _ := strings.Cut(kv, "=")
 		out = append(out, [2]string{k, v})
 	}
